@@ -8,7 +8,7 @@ From hls Require Import Base Float Lex Kinds Types Tags Line Keys Media.
 From hls.Spec Require Import KeySpec.
 From hls Require Import Master.
 From hls.Generated Require Import Tables.
-From hls.Proofs Require Import KeysProof C06 C11 C03 TextLines AttrText TagText TagTextSegment TagTextDateRange MediaText C03Items.
+From hls.Proofs Require Import KeysProof C06 C11 C03 TextLines AttrText TagText TagTextSegment TagTextDateRange MediaText C03Items ParsedBuilt.
 
 (* for key lists as consecutive segments of a parse have them (each the marker alone or keys of
    pairwise different formats; keys never vanish without METHOD=NONE), the EXT-X-KEY events the
@@ -109,6 +109,31 @@ Check C03_reread_same : forall p raws, built_ok p raws ->
   /\ mp_start (reread p) = mp_start p /\ mp_endlist (reread p) = mp_endlist p /\ mp_unknown (reread p) = mp_unknown p
   /\ Forall2 seg_same (mp_segs (reread p)) (mp_segs p).
 Print Assumptions C03_reread_same.
+
+(* ---------- the property as stated: for every value obtained by parsing ---------- *)
+(* every parse result has the build() invariants (numbers, explicit ranges, durations, key shapes) *)
+Theorem C03_parsed_built : forall s p, parse_media s = Ok p -> exists raws, built_ok p raws.
+Proof. exact parsed_media_built. Qed.
+Check C03_parsed_built : forall s p, parse_media s = Ok p -> exists raws, built_ok p raws.
+Print Assumptions C03_parsed_built.
+
+(* ... so for every parse result that is well-formed (`wf_media`, decidable: durations and floats
+   survive the std text conversions, unquoted SCTE35 values contain no comma, ...) writing and
+   parsing again succeeds and yields the same observable content, keys per segment as a set *)
+Theorem C03_roundtrip : forall s p, parse_media s = Ok p -> wf_media p = true ->
+  parse_media (print_media p) = Ok (reread p)
+  /\ mp_target (reread p) = mp_target p /\ mp_mseq (reread p) = mp_mseq p /\ mp_dseq (reread p) = mp_dseq p
+  /\ mp_ptype (reread p) = mp_ptype p /\ mp_iframes (reread p) = mp_iframes p /\ mp_indep (reread p) = mp_indep p
+  /\ mp_start (reread p) = mp_start p /\ mp_endlist (reread p) = mp_endlist p /\ mp_unknown (reread p) = mp_unknown p
+  /\ Forall2 seg_same (mp_segs (reread p)) (mp_segs p).
+Proof. exact parsed_media_roundtrip. Qed.
+Check C03_roundtrip : forall s p, parse_media s = Ok p -> wf_media p = true ->
+  parse_media (print_media p) = Ok (reread p)
+  /\ mp_target (reread p) = mp_target p /\ mp_mseq (reread p) = mp_mseq p /\ mp_dseq (reread p) = mp_dseq p
+  /\ mp_ptype (reread p) = mp_ptype p /\ mp_iframes (reread p) = mp_iframes p /\ mp_indep (reread p) = mp_indep p
+  /\ mp_start (reread p) = mp_start p /\ mp_endlist (reread p) = mp_endlist p /\ mp_unknown (reread p) = mp_unknown p
+  /\ Forall2 seg_same (mp_segs (reread p)) (mp_segs p).
+Print Assumptions C03_roundtrip.
 
 (* non-vacuity at text level: a parsed playlist with two key formats, a key rotation, METHOD=NONE,
    a map, byte ranges, a date range and fractional durations meets every hypothesis *)
